@@ -87,8 +87,8 @@ Sig buildConsistent(const Chooser &c, const BuildOpts &o) {
     if (rfc) s.rfc.index = s.chains[0].index;
     bool cal = o.wantCal >= 0 ? o.wantCal != 0 : c.pick(4) != 0;
     if (cal) { s.hasCal = true; uint64_t p; if (o.fixedPubTime) p = o.p; else { unsigned m = c.pick(6); p = m == 0 ? t : (m < 4 ? t + 1 + c.pick(3000000) : t + ((uint64_t)c.pick(65536) << 12)); }
-        s.cal.pubTime = p; s.cal.aggrTime = t; s.cal.hasAggrTime = !(p == t && c.pick(2)); s.cal.inputHash = cur; s.cal.links = calLinksFor(c, t, p, 1);
-        if (s.cal.links.empty()) { s.cal.pubTime = p = t + 1; s.cal.hasAggrTime = true; s.cal.links = calLinksFor(c, t, p, 1); }
+        s.cal.pubTime = p; s.cal.aggrTime = t; s.cal.hasAggrTime = !(p == t && c.pick(2)); s.cal.inputHash = cur; s.cal.links = o.calSalt ? coherentCalLinks(t, p, o.calSalt) : calLinksFor(c, t, p, 1);
+        if (s.cal.links.empty()) { s.cal.pubTime = p = t + 1; s.cal.hasAggrTime = true; s.cal.links = o.calSalt ? coherentCalLinks(t, p, o.calSalt) : calLinksFor(c, t, p, 1); }
         ChainResult cr = calAggregate(s.cal.links, s.cal.inputHash);
         bool pub = o.wantPub >= 0 ? o.wantPub != 0 : c.pick(3) == 0; bool auth = !pub && (o.wantAuth >= 0 ? o.wantAuth != 0 : c.pick(2) != 0);
         if (pub) { s.hasPub = true; s.pub.data.time = p; s.pub.data.hash = cr.hash; if (c.pick(2)) s.pub.refs.push_back("ref " + std::to_string(c.pick(1000))); if (c.pick(3) == 0) s.pub.uris.push_back("http://example.test/pub"); }
